@@ -171,6 +171,58 @@ func ruleWriteBound(c *Ctx) {
 	}
 	fi := c.info(fn)
 	name := fnName(fn)
+	// ErrFullBuffer exactly when not everything could be taken: at its origin the conditions contradict
+	// len(p) + len(Data) ≤ BufferSize for the values on entry (a test that is one step too wide reports a full
+	// buffer for a slice that fits exactly, and the caller — the wrapper, an io.Copy — stops for nothing)
+	if len(fn.Params) == 2 && isByteSlice(fn.Params[1].Type()) {
+		nFull := 0
+		for _, b := range fn.Blocks {
+			for _, in := range b.Instrs {
+				u, ok := in.(*ssa.UnOp)
+				if !ok || errGlobalName(u) != "ErrFullBuffer" {
+					continue
+				}
+				nFull++
+				okX := false
+				for _, lb := range fn.Blocks {
+					for _, lin := range lb.Instrs {
+						bs, isLd := lin.(*ssa.UnOp)
+						if !isLd || bs.Op != token.MUL || fi.version(bs) != "" {
+							continue
+						}
+						if p, okp := recvPath(fn, bs.X); !okp || lastField(p) != "BufferSize" {
+							continue
+						}
+						for _, db := range fn.Blocks {
+							for _, din := range db.Instrs {
+								dl, isD := din.(*ssa.UnOp)
+								if !isD || dl.Op != token.MUL || fi.version(dl) != "" {
+									continue
+								}
+								if p, okp := recvPath(fn, dl.X); !okp || p != "Data" {
+									continue
+								}
+								all := true
+								for _, w := range fi.flagWays(b) {
+									if !fi.refute(w, []Fact{{fi.lenOf(fn.Params[1]).add(fi.lenOf(dl)).sub(fi.lin(bs)), LE}}, 0) {
+										all = false
+									}
+								}
+								if all {
+									okX = true
+								}
+							}
+						}
+					}
+				}
+				c.check(okX, fmt.Sprintf("%s:full-exact#%d", name, nFull), u.Pos(), "ErrFullBuffer only when len(p) + len(Data) > BufferSize on entry",
+					"Write can report ErrFullBuffer although the whole slice fits (the conditions of this exit do not contradict len(p) + len(Data) ≤ BufferSize): C15 wants the error exactly when not everything could be taken")
+			}
+		}
+		if nFull == 0 {
+			c.fail(name+":full-exact", fn.Pos(), "no origin of ErrFullBuffer found in Write")
+		}
+	}
 	var ap *ssa.Call
 	for _, b := range fn.Blocks {
 		for _, a := range blkAppends(b, "Data") {
@@ -441,6 +493,63 @@ func ruleReadFrom(c *Ctx) {
 		c.check(okX && nx >= 2, name+":exits", call.Pos(), "the fill loop is left only on err != nil or len(Data) ≥ BufferSize",
 			"the fill loop can be left on something other than a reader error or a full buffer (e.g. a short read): "+why)
 	}
+	// the reader's error is never replaced by the buffer's own status: wherever ErrFullBuffer becomes the result,
+	// every way from the latest Read to that point passes an edge on which the reader's error is nil
+	if errv != nil {
+		okKeepErr, nFull := true, 0
+		whyE := ""
+		for _, b := range fn.Blocks {
+			for _, in := range b.Instrs {
+				u, ok := in.(*ssa.UnOp)
+				if !ok || errGlobalName(u) != "ErrFullBuffer" {
+					continue
+				}
+				nFull++
+				// backwards from b to the block of the Read
+				type item struct {
+					b     *ssa.BasicBlock
+					clean bool // an edge asserting err == nil was passed
+				}
+				seen := map[item]bool{}
+				work := []item{{b, false}}
+				for len(work) > 0 {
+					it := work[len(work)-1]
+					work = work[:len(work)-1]
+					if seen[it] {
+						continue
+					}
+					seen[it] = true
+					if it.b == call.Block() && it.b != b {
+						if !it.clean {
+							okKeepErr = false
+							whyE = fmt.Sprintf("block %d sets ErrFullBuffer and is reachable from the Read without a test that the reader's error is nil", b.Index)
+						}
+						continue
+					}
+					for _, p := range it.b.Preds {
+						clean := it.clean
+						if iff, ok := p.Instrs[len(p.Instrs)-1].(*ssa.If); ok {
+							cd := Cond{iff.Cond, p.Succs[0] == it.b}
+							if isNilCmp(cd, errv) == -1 {
+								clean = true
+							}
+							// the error carried in a loop variable that holds nil or the reader's error
+							cd2 := unNot(cd)
+							if bo, ok := cd2.V.(*ssa.BinOp); ok {
+								for _, v := range []ssa.Value{bo.X, bo.Y} {
+									if ph, isPhi := v.(*ssa.Phi); isPhi && nilOrValue(ph, errv, map[*ssa.Phi]bool{}) && isNilCmp(cd, ph) == -1 {
+										clean = true
+									}
+								}
+							}
+						}
+						work = append(work, item{p, clean})
+					}
+				}
+			}
+		}
+		c.check(okKeepErr && nFull > 0, name+":reader-error-kept", call.Pos(), "ErrFullBuffer becomes the result only where the reader's error is known to be nil", "the reader's error can be overwritten by ErrFullBuffer ("+whyE+"): a fault that arrives with the bytes that fill the buffer is never reported")
+	}
 	// result
 	okR := false
 	for _, b := range fn.Blocks {
@@ -461,14 +570,180 @@ func ruleReadFrom(c *Ctx) {
 		}
 		okR = pos != "" && neg != "" && !strings.Contains(neg, "@") && len(l.t) == 2 && l.c == 0
 	}
-	c.check(okR, name+":result", fn.Pos(), "returns len(Data)_after − len(Data)_before", "the returned count is not len(Data) after minus len(Data) at entry")
+	if !okR && keep && k != nil {
+		// running count: every returned value is 0 plus the k of each Read so far, and (":keep") the same k is
+		// added to len(Data) right after each Read — the two sums agree
+		var acc func(v ssa.Value, seen map[ssa.Value]bool) bool
+		acc = func(v ssa.Value, seen map[ssa.Value]bool) bool {
+			v = stripConv(v)
+			if seen[v] {
+				return true
+			}
+			seen[v] = true
+			switch x := v.(type) {
+			case *ssa.Const:
+				return isConstZero(x)
+			case *ssa.Phi:
+				for _, e := range x.Edges {
+					if !acc(e, seen) {
+						return false
+					}
+				}
+				return true
+			case *ssa.BinOp:
+				if x.Op == token.ADD {
+					if stripConv(x.Y) == ssa.Value(k) {
+						return acc(x.X, seen)
+					}
+					if stripConv(x.X) == ssa.Value(k) {
+						return acc(x.Y, seen)
+					}
+				}
+			}
+			return false
+		}
+		// each Read's k is counted exactly once per iteration, before the iteration can be left: the accumulating
+		// addition sits in the block of the call
+		var add *ssa.BinOp
+		nAdds := 0
+		for _, b := range fn.Blocks {
+			for _, in := range b.Instrs {
+				bo, ok := in.(*ssa.BinOp)
+				if !ok || bo.Op != token.ADD || !(stripConv(bo.Y) == ssa.Value(k) || stripConv(bo.X) == ssa.Value(k)) {
+					continue
+				}
+				other := bo.X
+				if stripConv(bo.X) == ssa.Value(k) {
+					other = bo.Y
+				}
+				if _, isPhi := stripConv(other).(*ssa.Phi); !isPhi {
+					continue // len(Data) + k and the like
+				}
+				nAdds++
+				if b == call.Block() {
+					add = bo
+				}
+			}
+		}
+		all, n := add != nil && nAdds == 1, 0
+		for _, b := range fn.Blocks {
+			r, ok := b.Instrs[len(b.Instrs)-1].(*ssa.Return)
+			if !ok {
+				continue
+			}
+			n++
+			if !acc(r.Results[0], map[ssa.Value]bool{}) {
+				all = false
+			}
+			// a return taken after this iteration's Read reports the sum that includes its k
+			if add != nil {
+				for _, lf := range mergeLeaves(stripConv(r.Results[0])) {
+					after := call.Block() == b || call.Block().Dominates(b)
+					if lf.Pred != nil {
+						after = call.Block() == lf.Pred || call.Block().Dominates(lf.Pred)
+					}
+					if after && stripConv(lf.V) != ssa.Value(add) {
+						all = false
+					}
+				}
+			}
+		}
+		okR = all && n > 0
+	}
+	c.check(okR, name+":result", fn.Pos(), "returns len(Data)_after − len(Data)_before (or the running sum of the counts that were appended)", "the returned count is not len(Data) after minus len(Data) at entry")
 }
 
 // ---------------------------------------------------------------- R-MARGIN
 
+// growthGuarded: in the methods of ParserBuffer that lengthen Data (an append to it, a re-slice beyond its length),
+// no way from the entry reaches the lengthening store on the "needs room" side of the margin test (new length + 7 >
+// cap(Data)) without passing a call that reaches the growing helper. The obligations of R-MARGIN about grow are
+// anchored at its calls; this one is anchored at the store, so that a call that is dropped does not take its
+// obligations with it.
+func (c *Ctx) growthGuarded(pb *types.Named, grow *ssa.Function) {
+	for _, name := range []string{"Write", "ReadFrom"} {
+		fn := c.method(pb, name)
+		if fn == nil {
+			continue
+		}
+		fi := c.info(fn)
+		growBlocks := map[*ssa.BasicBlock]bool{}
+		for _, b := range fn.Blocks {
+			for _, in := range b.Instrs {
+				if call, ok := in.(*ssa.Call); ok && call.Call.StaticCallee() != nil && c.reachable(call.Call.StaticCallee())[grow] {
+					growBlocks[b] = true
+				}
+			}
+		}
+		n := 0
+		for _, b := range fn.Blocks {
+			for _, in := range b.Instrs {
+				st, ok := in.(*ssa.Store)
+				if !ok {
+					continue
+				}
+				if p, okp := recvPath(fn, st.Addr); !okp || p != "Data" {
+					continue
+				}
+				lengthens := false
+				if vi, isI := st.Val.(ssa.Instruction); isI && isBuiltinCall(vi, "append") != nil {
+					lengthens = true
+				}
+				if sl, isSl := st.Val.(*ssa.Slice); isSl && sl.High != nil {
+					lengthens = true
+				}
+				if !lengthens || growBlocks[b] {
+					continue
+				}
+				n++
+				key := fmt.Sprintf("%s:growth-guarded#%d", fnName(fn), n)
+				// search from the entry, not through grow blocks, taking at a margin test only its "needs room" side
+				seen := map[*ssa.BasicBlock]bool{}
+				stack := []*ssa.BasicBlock{fn.Blocks[0]}
+				reached := false
+				sawTest := false
+				for len(stack) > 0 {
+					x := stack[len(stack)-1]
+					stack = stack[:len(stack)-1]
+					if seen[x] || growBlocks[x] {
+						continue
+					}
+					seen[x] = true
+					if x == b {
+						reached = true
+						break
+					}
+					succs := x.Succs
+					if iff, isIf := x.Instrs[len(x.Instrs)-1].(*ssa.If); isIf {
+						for _, f := range fi.factsOf([]Cond{{iff.Cond, true}}) {
+							for a, co := range f.L.t {
+								if strings.HasPrefix(a, "cap(") && strings.Contains(a, ".Data") && f.Op == LE {
+									sawTest = true
+									if co > 0 {
+										succs = x.Succs[:1] // true side: cap ≤ …: needs room
+									} else {
+										succs = x.Succs[1:] // true side is the safe one
+									}
+								}
+							}
+						}
+					}
+					stack = append(stack, succs...)
+				}
+				// without any margin test on the way the store is reached trivially: that is the same hole
+				c.check(!(reached), key, st.Pos(), "Data is lengthened only with room for the 7-byte margin: behind the margin test on its safe side, or behind a call of the growing helper",
+					fmt.Sprintf("Data is lengthened here on a way that has %s and passes no call of the growing helper: append reallocates without the 7 bytes of margin (or the re-slice runs past the capacity) and the 8-byte loads of the hash parsers read outside the array", map[bool]string{true: "failed the margin test (new length + 7 > cap)", false: "no margin test"}[sawTest]))
+			}
+		}
+	}
+}
+
 func ruleMargin(c *Ctx) {
 	pb := c.parserBuf()
 	grow := c.roles().grow
+	if grow != nil {
+		c.growthGuarded(pb, grow)
+	}
 	if grow == nil {
 		c.fail("lz.(*ParserBuffer).grow", token.NoPos, "method not found")
 	} else {
@@ -685,10 +960,13 @@ func ruleMargin(c *Ctx) {
 					case *ssa.MakeSlice:
 						capL = fi.lin(x.Cap)
 					case *ssa.Slice:
-						if x.High == nil || isConstZero(x.High) || x.Low != nil || x.Max != nil {
+						if x.High == nil || isConstZero(x.High) || x.Low != nil {
 							continue
 						}
-						if cc := capCallOn(reset, x.X); cc != nil {
+						if x.Max != nil {
+							// three-index slice: the capacity is what the expression says
+							capL = fi.lin(x.Max)
+						} else if cc := capCallOn(reset, x.X); cc != nil {
 							capL = fi.lin(cc)
 						} else {
 							capL = linAtom("cap(" + fi.key(x.X) + ")")
@@ -952,10 +1230,56 @@ func (c *Ctx) checkShiftOffsets(fn *ssa.Function) {
 			n++
 			key := fmt.Sprintf("%s:pos-store#%d", name, n)
 			bo, ok := st.Val.(*ssa.BinOp)
-			good := ok && bo.Op == token.SUB && bo.Y == delta && isFieldRead(bo.X, posName)
+			// δ: the parameter, or its one conversion to the position type (the caller's conversion moved inside)
+			good := ok && bo.Op == token.SUB && (bo.Y == ssa.Value(delta) || stripConv(bo.Y) == ssa.Value(delta)) && isFieldRead(bo.X, posName)
 			if good {
 				// dominated by pos ≥ δ in any spelling (¬(pos < δ), δ ≤ pos, …): decided on the facts
-				guarded := fi.proveLE(fi.lin(delta).sub(fi.lin(bo.X)), b, nil)
+				guarded := fi.proveLE(fi.lin(bo.Y).sub(fi.lin(bo.X)), b, nil)
+				if !guarded {
+					// the guard may have tested an earlier load of the same entry field (e := &table[i]; if e.pos < δ
+					// …; e.pos -= δ) with no store to the entry in between
+					if ld, ok := bo.X.(*ssa.UnOp); ok {
+						if fa2, ok := ld.X.(*ssa.FieldAddr); ok {
+							for _, b2 := range fn.Blocks {
+								if !(b2 == b || b2.Dominates(b)) {
+									continue
+								}
+								for _, in2 := range b2.Instrs {
+									ld2, ok := in2.(*ssa.UnOp)
+									if !ok || ld2 == ld || ld2.Op != token.MUL {
+										continue
+									}
+									fa3, ok := ld2.X.(*ssa.FieldAddr)
+									if !ok || fa3.X != fa2.X || fa3.Field != fa2.Field {
+										continue
+									}
+									clean := true
+									for _, b3 := range fn.Blocks {
+										for _, in3 := range b3.Instrs {
+											st3, ok := in3.(*ssa.Store)
+											if !ok || st3 == st || !fi.instrReaches(ld2, st3) {
+												continue
+											}
+											// on a way from the store to the subtraction that does not come back through the guard's load
+											onWay := (b3 == b && fi.instrIx[st3] < fi.instrIx[ld]) || (b3 == b2 && fi.instrIx[st3] > fi.instrIx[ld2]) ||
+												(b3 != b && b3 != b2 && fi.reachAvoidBoth(b3, b2, b2)[b])
+											if onWay {
+												if r3, _, ok := pathStr(st3.Addr); ok {
+													if r2, _, ok2 := pathStr(fa2); ok2 && r3 == r2 {
+														clean = false
+													}
+												}
+											}
+										}
+									}
+									if clean && fi.proveLE(fi.lin(bo.Y).sub(fi.lin(ld2)), b, nil) {
+										guarded = true
+									}
+								}
+							}
+						}
+					}
+				}
 				good = guarded
 			}
 			c.check(good, key, st.Pos(), "pos = pos − δ under pos ≥ δ", "a position is re-based by something other than pos − δ guarded by pos ≥ δ")
@@ -1002,6 +1326,12 @@ func ruleWrapOrder(c *Ctx) {
 		c.fail(name+":calls", fn.Pos(), "expected calls to Parse, Shrink and ReadFrom of the wrapped parser")
 		return
 	}
+	// the wrapper shrinks a buffer whose data is all parsed (W = len(Data) ≤ BufferSize) and then reads: that
+	// read finds room only because Shrink leaves ShrinkSize bytes and every accepted configuration has
+	// ShrinkSize < BufferSize (what Shrink leaves is R-SHRINK-PB, bound to this property as well)
+	c.check(c.verifyImplies("BufConfig", "ShrinkSize", "BufferSize", -1), name+":shrink-makes-room", shrink.Pos(),
+		"BufConfig.Verify establishes ShrinkSize < BufferSize: after Shrink a fully parsed buffer has room for the next read",
+		"BufConfig.Verify accepts ShrinkSize ≥ BufferSize: a buffer that is full of parsed data stays full after Shrink, ReadFrom stores nothing and the wrapper ends the stream with ErrFullBuffer although the reader has more data")
 	// the values that hold "the error / the count of the latest inner Parse": the results of the Parse
 	// calls and merges of such values (a loop written with the first Parse before it carries them in φs)
 	perrs, pns := map[ssa.Value]bool{}, map[ssa.Value]bool{}
@@ -1149,6 +1479,19 @@ func ruleWrapOrder(c *Ctx) {
 		storeBlock := map[*ssa.BasicBlock]bool{}
 		for _, st := range stores {
 			storeBlock[st.Block()] = true
+			// kept only when data came with it: with k == 0 the error is returned at once, and keeping it as well
+			// reports one failure twice
+			withData := false
+			if k != nil {
+				for _, f := range fi.factsAt(st.Block()) {
+					if len(f.L.t) == 1 {
+						if co, ok := f.L.t[k.Name()]; ok && ((f.Op == NE && f.L.c == 0) || (f.Op == LE && co == -1 && f.L.c >= 1)) {
+							withData = true
+						}
+					}
+				}
+			}
+			c.check(withData, name+":reader-error-kept:once", st.Pos(), "the reader's error is kept only when data came with it (k ≠ 0)", "the reader's error is stored for later although it may also be returned at once (k == 0 is not excluded where it is stored): one failure of the reader is reported twice")
 		}
 		fullSide := func(p, s *ssa.BasicBlock) bool {
 			iff, ok := p.Instrs[len(p.Instrs)-1].(*ssa.If)
@@ -1215,15 +1558,74 @@ func ruleWrapOrder(c *Ctx) {
 		c.check(okKeep, name+":reader-error-kept", readFrom.Pos(), "a reader error that arrives with data is kept (or the refill ended for lack of room) before Parse is retried, and handed out once the data is parsed", detail)
 		if keepF != nil {
 			okClr := false
+			clrBlocks := map[*ssa.BasicBlock]bool{}
 			if rs := c.method(wp, "Reset"); rs != nil {
 				for _, b := range rs.Blocks {
 					for _, in := range b.Instrs {
 						if st, ok := in.(*ssa.Store); ok && fieldOfAddr(st.Addr) == keepF {
 							if k, isC := st.Val.(*ssa.Const); isC && k.Value == nil {
 								okClr = true
+								clrBlocks[b] = true
+							}
+						}
+						// *s = WrappedParser{…} without the kept-error field: the whole value is replaced
+						if st, ok := in.(*ssa.Store); ok && len(rs.Params) > 0 && st.Addr == ssa.Value(rs.Params[0]) {
+							if k, isC := st.Val.(*ssa.Const); isC && k.Value == nil {
+								// the zero value is stored and the listed fields are filled in afterwards
+								sets := false
+								for _, b2 := range rs.Blocks {
+									for _, in2 := range b2.Instrs {
+										if fs, ok := in2.(*ssa.Store); ok && fieldOfAddr(fs.Addr) == keepF {
+											if kk, isCC := fs.Val.(*ssa.Const); !isCC || kk.Value != nil {
+												sets = true
+											}
+										}
+									}
+								}
+								if !sets {
+									okClr = true
+									clrBlocks[b] = true
+								}
+							}
+							if ld, ok := st.Val.(*ssa.UnOp); ok && ld.Op == token.MUL {
+								if al, ok := ld.X.(*ssa.Alloc); ok {
+									sets := false
+									for _, ref := range *al.Referrers() {
+										if fa, ok := ref.(*ssa.FieldAddr); ok && fieldOfAddr(fa) == keepF {
+											for _, u := range *fa.Referrers() {
+												if fs, ok := u.(*ssa.Store); ok && fs.Addr == ssa.Value(fa) {
+													if k, isC := fs.Val.(*ssa.Const); !isC || k.Value != nil {
+														sets = true
+													}
+												}
+											}
+										}
+									}
+									if !sets {
+										okClr = true
+										clrBlocks[b] = true
+									}
+								}
 							}
 						}
 					}
+				}
+			}
+			if rs := c.method(wp, "Reset"); okClr && rs != nil {
+				// on every returning path, not only under a condition on the kept value
+				seen := map[*ssa.BasicBlock]bool{}
+				work := []*ssa.BasicBlock{rs.Blocks[0]}
+				for len(work) > 0 {
+					b := work[len(work)-1]
+					work = work[:len(work)-1]
+					if seen[b] || clrBlocks[b] {
+						continue
+					}
+					seen[b] = true
+					if _, isRet := b.Instrs[len(b.Instrs)-1].(*ssa.Return); isRet {
+						okClr = false
+					}
+					work = append(work, b.Succs...)
 				}
 			}
 			c.check(okClr, "lz.(*WrappedParser).Reset:kept-error-cleared", fn.Pos(), "Reset clears the kept reader error", "WrappedParser.Reset does not clear the kept reader error: the next stream starts by returning the previous reader's error")
